@@ -60,6 +60,43 @@ def decorate(w, ops, rng, rename=0.5, ident=0.7, user=0.5, unname=0.06):
                     _apply_keep(w, ops, ['lower', str(i), str(rng.choice([0, 1, 5]))])
 
 
+def edit_values(w, ops, rng, p_user=0.4, p_ident=0.35, p_name=0.3):
+    """Between two rounds of queries: change the VALUES existing elements carry under the queried keys
+    (user key, EDIF.identifier, .NAME) - set to another value, set where absent, delete - without adding
+    or removing any element, so every child list keeps its length. Whatever a query path remembers from
+    the first round (an index of scanned children, a name map) is out of date afterwards.
+    Accepted ops are appended to the recipe; -> number of accepted edits."""
+    n = 0
+    for i in range(len(w.objs)):
+        o = w.objs[i]
+        k = w.kind(o)
+        if k in ('pin', 'wire', 'netlist'):
+            continue
+        if rng.random() < p_user:
+            if USER_KEY in o and rng.random() < 0.2:
+                n += _apply_keep(w, ops, ['ddel', str(i), tok_of_s(USER_KEY)])
+            else:
+                cur = o[USER_KEY] if USER_KEY in o else None
+                v = rng.choice([x for x in USER_POOL if x != cur])
+                n += _apply_keep(w, ops, ['dset', str(i), tok_of_s(USER_KEY), 's:' + tok_of_s(v)])
+        if rng.random() < p_ident:
+            cur = o['EDIF.identifier'] if 'EDIF.identifier' in o else None
+            for _ in range(3):
+                idn = rng.choice(IDENT_POOL)
+                if rng.random() < 0.3:
+                    idn = idn.swapcase()
+                if idn != cur and _apply_keep(w, ops, ['dset', str(i), tok_of_s('EDIF.identifier'), 's:' + tok_of_s(idn)]):
+                    n += 1
+                    break
+        if rng.random() < p_name:
+            for _ in range(3):
+                nm = rng.choice(NAME_POOL)
+                if nm != o.name and _apply_keep(w, ops, ['setname', str(i), tok_of_s(nm)]):
+                    n += 1
+                    break
+    return n
+
+
 def spread(w, ops, rng, p=0.6):
     """Move some definitions into 1-3 additional libraries, so that library-level dependency chains
     (library -> library -> library) occur: the recursive settings of get_libraries / get_definitions
